@@ -19,6 +19,8 @@ import (
 	"fmt"
 	"go/constant"
 	"go/types"
+	"os"
+	"path/filepath"
 	"sort"
 	"strings"
 
@@ -434,6 +436,48 @@ func (V *Verifier) AuxCheck(pkgPath string, props []string) []*Obligation {
 				"the package initialiser creates the table as an empty map (entries come from the init functions only, which are executed)", pkgName+".init"))
 		}
 	}
+	// what is verified is what is built: every non-test Go file of the package directory is part of the loaded
+	// package (no file selected or excluded by a build constraint; the comment-only contract file is the exception)
+	if lp := V.lpkgs[pkgPath]; lp != nil && len(lp.GoFiles) > 0 {
+		dir := filepath.Dir(lp.GoFiles[0])
+		loaded := map[string]bool{}
+		for _, f := range lp.GoFiles {
+			loaded[filepath.Base(f)] = true
+		}
+		var left []string
+		if ents, err := os.ReadDir(dir); err == nil {
+			for _, e := range ents {
+				n := e.Name()
+				if e.IsDir() || !strings.HasSuffix(n, ".go") || strings.HasSuffix(n, "_test.go") || n == "zz_contracts_verif.go" || loaded[n] {
+					continue
+				}
+				left = append(left, n)
+			}
+		}
+		d := "every Go file of the package directory is part of the build that is verified (a file behind a build constraint is code the checks never see)"
+		if len(left) > 0 {
+			d += ": not loaded: " + strings.Join(left, ", ")
+		}
+		out = append(out, mkOb(fmt.Sprintf("%s/files/all-built-files-verified", pkgName), props, BoolC(len(left) == 0), nil, d, pkgName))
+		// and none of the loaded files carries a build constraint of its own
+		var constrained []string
+		for _, f := range lp.GoFiles {
+			if b, err := os.ReadFile(f); err == nil {
+				head := string(b)
+				if i := strings.Index(head, "\npackage "); i >= 0 {
+					head = head[:i]
+				}
+				if strings.Contains(head, "//go:build") || strings.Contains(head, "// +build") {
+					constrained = append(constrained, filepath.Base(f))
+				}
+			}
+		}
+		d2 := "no verified file is selected by a build constraint (another configuration would build other code)"
+		if len(constrained) > 0 {
+			d2 += ": " + strings.Join(constrained, ", ")
+		}
+		out = append(out, mkOb(fmt.Sprintf("%s/files/no-build-constraints", pkgName), props, BoolC(len(constrained) == 0), nil, d2, pkgName))
+	}
 	// (e) everything else is pure
 	for _, f := range fns {
 		if accounted[f] != "" || f.Parent() != nil {
@@ -441,6 +485,32 @@ func (V *Verifier) AuxCheck(pkgPath string, props []string) []*Obligation {
 		}
 		pu := &purity{V: V, memo: map[*ssa.Function]string{}, visited: map[*ssa.Function]bool{}}
 		pu.ctor = f.Signature.Recv() == nil && strings.HasPrefix(f.Name(), "New") && f.Signature.Params().Len() == 0
+		if pu.ctor && f.Signature.Results().Len() == 1 && hasCodecMethods(f.Signature.Results().At(0).Type()) {
+			// the constructor of a message type returns a fresh ZERO value (what all 168 generated constructors do:
+			// `return &T{}`): one heap allocation of T, no store, no call, that allocation returned
+			zero := len(f.Blocks) == 1
+			var alloc *ssa.Alloc
+			if zero {
+				for _, in := range f.Blocks[0].Instrs {
+					switch in := in.(type) {
+					case *ssa.Alloc:
+						if alloc != nil {
+							zero = false
+						}
+						alloc = in
+					case *ssa.DebugRef:
+					case *ssa.Return:
+						if len(in.Results) != 1 || alloc == nil || in.Results[0] != ssa.Value(alloc) {
+							zero = false
+						}
+					default:
+						zero = false
+					}
+				}
+			}
+			out = append(out, mkOb(fmt.Sprintf("%s.%s/returns-fresh-zero-value", pkgName, f.Name()), props, BoolC(zero), nil,
+				"the constructor of a message type returns a freshly allocated zero value (no preset discriminator, no pre-built or shared parts): the guarantees about constructor results rest on this", pkgName+"."+f.Name()))
+		}
 		if f.Signature.Recv() != nil && !implicitMethods[f.Name()] {
 			pu.ownRecv = f
 		}
